@@ -117,6 +117,15 @@ CLAIMED = {
               "verdict (must accept, must reject, unconstrained); the predefined operator of each of the eight shifts must be "
               "found for any axis name."),
         ref="4 C15, 3.8", technique="TLA+ character-level grammar (Signature) model-checked with TLC + TLC trace validation of the real parser, printer and equivalence"),
+    "C11": dict(
+        text=("The ufunc protocol is specified in TLA+ (effective option = call over definition over default; dummy names "
+              "bound to real axes by order of first appearance; arrival layout = other dims then signature axes in signature "
+              "order, padded by the declared widths under the rule in force; outputs on the declared positions of the bound "
+              "axes). Every real call - through Grid.apply_as_grid_ufunc, as_grid_ufunc with a string signature and with "
+              "Annotated hints, options placed at definition and/or call - is executed with a recording user function and the "
+              "TLA+ trace specification recomputes what the function must have received and where the results must live; "
+              "inputs on wrong positions and arity mismatches must be rejected."),
+        ref="4 C11, 3.7", technique="TLA+ spec (GridUfunc) + TLC trace validation of arguments received by a recording user function"),
 }
 
 PENDING_REASON = "check not built yet in this session (planned; see DESIGN.md section 9 build order)"
